@@ -47,7 +47,10 @@ RULE = ("every set of 1-3 distinct strict orders over 3 alternatives (dynamic pr
         "same number of removed alternatives (identical certificates are counted in the distribution). Volume for the "
         "dynamic programme (no ILP, no brute force): 3000 (thorough 12000) strict profiles with 7-10 alternatives "
         "(ids from 0, sparse, large), 2-6 votes, impartial culture / perturbed single-peaked: certificate + size = "
-        "mirror; plus 300 (1500) profiles with 7 alternatives against the verified reference min_alt_del")
+        "mirror; plus 300 (1500) profiles with 7 alternatives against the verified reference min_alt_del; plus 200 (1000) "
+        "profiles with 11-15 alternatives. On EVERY strict profile (2-15 alternatives) the number of alternatives "
+        "removed by k_alternative_deletion and the objective of the alternative-deletion ILP are compared with the "
+        "exact optimum computed by the fast verified reference c12.fast_min_alt (fast_min_alt_correct: = min_alt_del)")
 EXHAUSTIVE = {"quick": "k_alternative_deletion on every set of 1-3 distinct strict orders over 3 alternatives; ILP "
                        "encodings (3 functions) on every profile of 1-2 distinct weak orders over m <= 2 alternatives and "
                        "every single weak order over 3",
@@ -62,8 +65,9 @@ TRUSTED = ["the solver: python-mip 2.0 / CBC returns an optimal feasible assignm
            "and complete for every size (Proofs/ILPEnc.v) and compared with the model python-mip receives (c12.enc)",
            "k_alternative_deletion / longest_single_peaked_axis (dynamic programme) is MIRRORED (Model/ELPDP.v) and proved "
            "sound for every size (elp_sound: its output is accepted by cert_alt; approx_valid for the C18 loop); NOT "
-           "proved: its optimality (|removed| = min_alt_del) - compared with the verified reference min_alt_del for "
-           "m <= 6 and with the mirror (same number of removed alternatives) at every size; the mirror fixes the "
+           "proved: its optimality (|removed| = min_alt_del) - compared with the exact verified optimum at every size "
+           "(fast_min_alt, proved equal to min_alt_del; 2-15 alternatives) and with the mirror (same number of removed "
+           "alternatives); the mirror fixes the "
            "iteration order of CPython sets by two parameters, so (axis, removed) itself may differ: counted, not judged",
            "the three ILP functions are additionally compared end-to-end (objective = reference, certificates)"]
 ASSUMPTIONS = ["orders are complete over the instance's alternatives with non-empty classes; instance.orders holds "
@@ -346,6 +350,14 @@ def generate(tier, seed):
         fam = ["ic", "perturbed-sp"][i % 2]
         prof = impartial_culture(rng, alts, n) if fam == "ic" else perturbed_sp(rng, alts, n)
         out.append(mk(alts, prof, F_DP, 0, family="volume-" + fam, volume=1))
+    # ---- larger: 11-15 alternatives (the property stops below 20), 3-6 votes; exact optimum by c12.fast_min_alt
+    for i in range(200 if not thorough else 1000):
+        m = rng.randint(11, 15)
+        alts = rand_ids(rng, m)
+        n = rng.randint(3, 6)
+        fam = ["ic", "perturbed-sp"][i % 2]
+        prof = impartial_culture(rng, alts, n) if fam == "ic" else perturbed_sp(rng, alts, n)
+        out.append(mk(alts, prof, F_DP, 0, family="volume-" + fam, volume=1))
     # ---- reference comparison at m = 7 (strict profiles, dynamic programme only)
     for i in range(300 if not thorough else 1500):
         alts = rand_ids(rng, 7)
@@ -474,6 +486,9 @@ def _plan(c, r):
     if flags & F_DP:
         # the mirrored dynamic programme (Model/ELPDP.v) on the same strict profile, at every size
         plan.append(("elp", "c12.elp", [alts, [[c[0] for c in o] for o in profile]]))
+    if dt == 0 and flags & (F_DP | F_ALT):
+        # exact alternative-deletion optimum of a strict profile at every size (fast_min_alt_correct)
+        plan.append(("fast_alt", "c12.fast_min_alt", [alts, [[c[0] for c in o] for o in profile]]))
     return plan
 
 
@@ -504,6 +519,14 @@ def _opt_judge(c, r, mres):
     # bounds the model gives for the two optima
     lo_v, hi_v = (M["ref_vot"], M["ref_vot"]) if mode == 1 else (M["core_vot"], None)
     lo_a, hi_a = (M["ref_alt"], M["ref_alt"]) if mode == 1 else (M["core_alt"], None)
+    exact_a = "fast_alt" in M
+    if exact_a:
+        if mode == 1 and M["fast_alt"] != M["ref_alt"]:
+            return {"kind": "broken-correspondence", "reason": "model: fast_min_alt %r differs from min_alt_del %r "
+                                                               "(fast_min_alt_correct)" % (M["fast_alt"], M["ref_alt"])}
+        if M["fast_alt"] < lo_a:
+            return {"kind": "broken-correspondence", "reason": "model: fast_min_alt below the core lower bound (opt_restrict_mono)"}
+        lo_a = hi_a = M["fast_alt"]
     if pv:
         if M["pl_vot"] != 1:
             return {"kind": "broken-correspondence", "reason": "planted voter certificate rejected by the model"}
@@ -532,7 +555,7 @@ def _opt_judge(c, r, mres):
             return _mm(thm_min, "%s objective value is not an integer" % fn)
         if len(deleted) != k:
             return _mm(thm_cert, "%s: objective %d but %d deleted %ss %r" % (fn, k, len(deleted), what, deleted))
-        if mode == 1 and k < lo:
+        if (mode == 1 or (what == "alternative" and exact_a)) and k < lo:
             return _mm(thm_min, "%s reports optimum %d (deleted %r), but no set of %d %ss suffices: the verified "
                                 "reference optimum is %d" % (fn, k, deleted, k, what, lo))
         if M.get(certlab) != 1:
@@ -543,7 +566,8 @@ def _opt_judge(c, r, mres):
             return {"kind": "broken-correspondence", "reason": "%s: accepted certificate of size %d below the model's lower bound %d" % (fn, k, lo)}
         if hi is not None and k > hi:
             return _mm(thm_min, "%s reports %d, but %d %ss suffice (%s)" % (
-                fn, k, hi, what, "verified reference optimum" if mode == 1 else "planted certificate accepted by the verified checker"))
+                fn, k, hi, what, "verified reference optimum" if (mode == 1 or (what == "alternative" and exact_a))
+                else "planted certificate accepted by the verified checker"))
         return None
 
     if flags & F_VOT:
@@ -563,7 +587,7 @@ def _opt_judge(c, r, mres):
         if d[0] != 0:
             return {"kind": "exception", "reason": "k_alternative_deletion raised (code %r)" % (d[1:],)}
         axis, removed = d[1], d[2]
-        if mode == 1 and len(removed) < lo_a:
+        if (mode == 1 or exact_a) and len(removed) < lo_a:
             return _mm("min_alt_del_correct", "k_alternative_deletion removes %d alternatives %r, but no set of that size "
                        "suffices: the verified reference optimum is %d" % (len(removed), removed, lo_a))
         if M.get("cert_dp") != 1:
@@ -573,7 +597,7 @@ def _opt_judge(c, r, mres):
             return {"kind": "broken-correspondence", "reason": "k_alternative_deletion: accepted certificate below the model's lower bound"}
         if hi_a is not None and len(removed) > hi_a:
             return _mm("min_alt_del_correct", "k_alternative_deletion removes %d alternatives, but %d suffice (%s)" % (
-                len(removed), hi_a, "verified reference optimum" if mode == 1 else "planted certificate"))
+                len(removed), hi_a, "verified reference optimum" if (mode == 1 or exact_a) else "planted certificate"))
         m_axis, m_removed = M["elp"]
         if len(m_removed) != len(removed):
             return _mm("elp_sound / min_alt_del_correct", "k_alternative_deletion removes %d alternatives %r, the mirrored "
@@ -625,6 +649,9 @@ def _opt_stats(c, r, mres):
                 same = (M["elp"][0] == r["dp"][1] and M["elp"][1] == r["dp"][2])
                 lab.append("mirror ELP: (axis, removed) %s" % ("identical" if same else "same size, different certificate"))
                 lab.append("mirror ELP m=%d" % len(alts))
+            if "fast_alt" in M:
+                lab.append("exact optimum (fast_min_alt) compared, m=%d" % len(alts))
+                lab.append("exact optimum %s" % _bucket(M["fast_alt"]))
     if any(len(o[0]) >= 2 for o in profile):
         lab.append("has tied top")
     return lab
